@@ -447,10 +447,28 @@ class Lemmas:
                 break
             if ok and accq == queues:
                 total = l
-        if total is None:
+        total_lin = cx.lin(("var", total, "t")) if total is not None else None
+        if total_lin is None:
+            # the total may be computed by an accumulation helper (absint.accum_helper_summary): a single-definition local whose
+            # value is a constant plus sum-of-lengths terms over exactly these queues
+            for l, ds in cx.defs.items():
+                if len(ds) != 1 or cx.rng(b["locals"][l]["ty"]) is None:
+                    continue
+                li = cx.lin(sym.expr_def(b, ds[0]))
+                if not li.t or not all(k[0] == "len" and isinstance(k[1], tuple) and k[1][:1] == ("sumlen",) and co == 1 for k, co in li.t.items()):
+                    continue
+                qs = set()
+                for k in li.t:
+                    for y in sym.walk(k[1][1]):
+                        if isinstance(y, tuple) and len(y) > 1 and y[0] in ("refplace", "load") and isinstance(y[1], str) and y[1].startswith("arg1.") and y[1].count(".") == 1:
+                            qs.add(y[1])
+                if qs == queues and li.c >= 0:
+                    total_lin = li
+                    break
+        if total_lin is None:
             return None
         # (a) start + total <= u32::MAX at the site
-        goal = cx.lin(inits[0]) + cx.lin(("var", total, "t")) - A.Lin(2 ** 32 - 1)
+        goal = cx.lin(inits[0]) + total_lin - A.Lin(2 ** 32 - 1)
         ok, h = cx.prove_le0(goal, ob.bb)
         if not ok:
             return None
